@@ -291,11 +291,16 @@ def _root_canon(root):
 
 class Conn(object):
     """one real session + its scripted server; always close()"""
-    def __init__(self, kind, base):
+    def __init__(self, kind, base, device_params=None):
         from ncclient.transport.session import SessionListener
         self.kind, self.base = kind, base
         self.srv = SRV[kind](base)
-        self.sess = rec_class(kind)(P12.device_handler())
+        if device_params:                       # e.g. {'name': 'junos', 'use_filter': True}: the vendor parser SSHSession.connect installs
+            from ncclient.manager import make_device_handler
+            dh = make_device_handler(dict(device_params), None)
+        else:
+            dh = P12.device_handler()
+        self.sess = rec_class(kind)(dh)
         self.events = []                       # ('cb', raw, root, n_reads) | ('err', class name)
         conn = self
         class L(SessionListener):
@@ -360,7 +365,7 @@ def run_inbound(case):
     actions = case['actions']
     obs = dict(open_error=None, callbacks=[], roots=[], errors_before_close=[], holds=[], stalled_at=None, reads=[], states=[],
                disp=[], final_state=None, worker_alive_after_close=None, eof_seen=False, send_error=None)
-    c = Conn(kind, base)
+    c = Conn(kind, base, case.get('device_params'))
     if c.open_error:
         obs['open_error'] = c.open_error
         return obs
@@ -464,16 +469,19 @@ MODES = ['settle', 'pause', 'burst', 'mixed']
 MAX_STREAM = 40000
 MAX_PIECES = 48
 
-def gen_inbound_case(rng, kind, base, size=None):
+def gen_inbound_case(rng, kind, base, size=None, msg_gen=None):
     """One connection: messages (each an XML document element so that Session._dispatch_message hands it to the listeners),
-    1.1 chunking, the cut of the stream into written pieces, the action after each piece.  Returns (case, tags)."""
+    1.1 chunking, the cut of the stream into written pieces, the action after each piece.  Returns (case, tags).
+    msg_gen(rng, base, i, size, big): the text of message i, instead of the built-in choice."""
     size = size or rng.choice(['tiny', 'small', 'small', 'multi'])
     while True:
         n = rng.choice([1, 2, 3, 5])
         big_at = rng.randrange(n)
         msgs = []
         for i in range(n):
-            if size == 'tiny' or (size == 'small' and rng.random() < 0.3):
+            if msg_gen is not None:
+                m = msg_gen(rng, base, i, size, i == big_at)
+            elif size == 'tiny' or (size == 'small' and rng.random() < 0.3):
                 m = rng.choice(TINY_XML)
             elif size == 'multi' and i == big_at:
                 m = (F.gen_message(rng, base, 'long', i + 1, long_range=(4200, 18000)) if rng.random() < 0.5 else
